@@ -43,7 +43,8 @@ MANIFEST = dict(
          "level returns what plain Python indexing returns, both roots (C01_spellings_string, C01_spellings_string_list; "
          "first = the same element, a one-element list unwrapped: C01_spellings_first); an index out of range after a walk "
          "along existing nodes is a miss in every spelling on both roots: item access raises IndexError, get/first return "
-         "the default, tree unchanged (C01_out_of_range_miss). "
+         "the default itself - whatever value it is, a one-element list included (fix C04-f) - tree unchanged "
+         "(C01_out_of_range_miss). "
          "(5) tie of the two pure primitives every lookup goes through to the source: on every run harness/translate_py_xp.py "
          "re-translates the Python text of n0eval (index arithmetic: last(), new(), i+j, -k; nested my_split, two loops, "
          "try/except around int()/float()) and of split_name_index (name, [index], conditions with the operator table, quotes, "
@@ -212,10 +213,13 @@ def check_miss(c):
         return {"item_access_returned": repr(r[1])}
     if r[1] not in ("KeyError", "IndexError", "ValueError", "TypeError", "SyntaxError"):
         return {"item_access_raised": r[1]}
-    for how, f in (("get", lambda: o.get(xp, "DFLT")), ("first", lambda: o.first(xp, "DFLT"))):
-        r = core.call(f)
-        if r != ("ok", "DFLT"):
-            return {"via": how, "got": repr(r)}
+    # the caller's default ITSELF, whatever value it is (C01_out_of_range_miss; fix C04-f: first() unwrapped a default that
+    # was a one-element list / tuple)
+    for d in ["DFLT", None, ["D"], ("D",), [None], [[]], {}, 0, ""]:
+        for how, f in (("get", lambda: o.get(xp, d)), ("first", lambda: o.first(xp, d))):
+            r = core.call(f)
+            if r[0] != "ok" or r[1] is not d:
+                return {"via": how, "default": repr(d), "got": repr(r)}
     if enc_val(o) != before:
         return {"tree_changed": True}
     return None
@@ -493,7 +497,8 @@ def run(ctx):
     rng = ctx.rng("lookups")
     lk = []
     for c in sp_cases + miss_cases:
-        lk.append({"tree": c["tree"], "mode": c["mode"], "xp": c["xp"], "kind": rng.choice("gif"), "d": rng.choice([None, "D", 0])})
+        lk.append({"tree": c["tree"], "mode": c["mode"], "xp": c["xp"], "kind": rng.choice("gif"),
+                   "d": rng.choice([None, "D", 0, None, "D", ["D"], [None], [[]], {}, ""])})
     ctx.correspond(
         "xp.get",
         lk,
